@@ -8,6 +8,7 @@ import (
 	"regexp"
 	"strconv"
 	"strings"
+	"unicode/utf8"
 
 	"github.com/runreveal/pql/parser"
 
@@ -105,8 +106,27 @@ var posRe = regexp.MustCompile(`^(\d+):(\d+): `)
 func checkErrorText(src, text string, what string, r *mon.R) bool {
 	type lc struct{ l, c int }
 	img := map[lc]bool{}
-	for off := 0; off <= len(src); off++ {
-		l, c := LineCol(src, off)
+	// one pass: the (line, column) of every byte offset, as LineCol defines it
+	// (an offset inside a multi-byte character sees its leading bytes as one
+	// column each)
+	{
+		l, c := 1, 1
+		for i := 0; i < len(src); {
+			r, size := utf8.DecodeRuneInString(src[i:])
+			img[lc{l, c}] = true
+			for k := 1; k < size; k++ {
+				img[lc{l, c + k}] = true
+			}
+			switch {
+			case r == '\n':
+				l, c = l+1, 1
+			case r == '\t':
+				c = ((c-1)/8+1)*8 + 1
+			default:
+				c++
+			}
+			i += size
+		}
 		img[lc{l, c}] = true
 	}
 	seen := false
